@@ -14,7 +14,10 @@ position (last element, exhausted) on stores of 0..5 entities; paged filters (Ne
 bolt / typed / filtered / tree providers in both directions.
 Several cursors alive at once (Cursor/Product.v, harness c14_multi.go, M lines): families of 2-3 cursors in one transaction (the
 same set symbol on different / the same rows; every pair of cursor families over the same / different buckets), each with its own
-Next/Seek program, interleaved in every bounded merge order, all cursors re-observed after every turn: non-interference."""
+Next/Seek program, interleaved in every bounded merge order, all cursors re-observed after every turn: non-interference.
+The cursor protocol (harness c14_proto.go, case lines with " @ modes"): IsValid / Current / Next / Seek in any order - Next or Seek as
+the first call on a fresh cursor, operations without a look in between, Current before / without IsValid - on every cursor kind;
+reference = the ordinary trace of the same case projected on the points looked at (looking is a function of the state, Cursor/Core.v)."""
 import json
 import os
 import subprocess
@@ -205,6 +208,38 @@ def filter_text(field, toks):
     return go(0)[0]
 
 
+def protocol_of(case):
+    """observation protocol of a case line ("... @ m0 m1 .."; harness c14_proto.go): one mode per observation point, [] = look
+    (IsValid, then Current) at every point"""
+    return case.partition(" @ ")[2].split()
+
+
+def project(tokens, proto, impl_t):
+    """what a trace (one I | V<hex> per point) shows through an observation protocol: looking is a function of the state
+    (Cursor/Core.v observe), so a point shows the same whatever other points were looked at and in whichever order IsValid and
+    Current were called.  - : not looked at (_); i : IsValid only; c : Current only - C<hex>, compared only where the set has an
+    element at that point (what Current returns on an exhausted cursor is not the property's subject); v / w : both."""
+    if len(proto) != len(tokens):
+        return tokens
+    out = []
+    for k, (t, m) in enumerate(zip(tokens, proto)):
+        if not (t == "I" or t.startswith("V")):
+            out.append(t)
+        elif m == "-":
+            out.append("_")
+        elif m == "i":
+            out.append(t[0])
+        elif m == "c":
+            free = impl_t[k] if k < len(impl_t) and impl_t[k].startswith("C") else "C-"
+            out.append("C" + t[1:] if t.startswith("V") else free)
+        else:
+            out.append(t)
+    return out
+
+
+PROTO_WORDS = {"-": "not looked at", "v": "IsValid then Current", "w": "Current then IsValid", "c": "Current only", "i": "IsValid only"}
+
+
 def oracle_trace(en, fw, ops):
     pos = 0 if en else None
 
@@ -367,7 +402,7 @@ def main(argv):
         "Cursor/BoltCursor.v as a description of bbolt 1.4.0 cursors (compared with real bbolt on every run: case kind B)",
         "llrb.Tree as an ordered set (replace on equal, in-order Left/Right links); its balancing is not modelled",
         "extraction (ExtrOcamlBasic only) + extraction/c14_driver.ml + drv_common.ml",
-        "Go harness cmd/storageharness/c14.go, c14_reuse.go, c14_scan.go, c14_multi.go (stores, generators) and this comparison / oracle",
+        "Go harness cmd/storageharness/c14.go, c14_reuse.go, c14_scan.go, c14_multi.go, c14_proto.go (stores, generators) and this comparison / oracle",
         "filters of the scanner cases: the set of ids a filter accepts is what the harness wrote (role r<mask> on the ids of mask); evaluation of filters is C01's subject",
         "uniqueIndexScanner.targetLimit = math.MaxInt64 (no limit) is modelled as 'never reached'; a paged scanner cursor that is SOUGHT is compared with the model only (design/C14.md section 9)",
         "composite set symbols (stackedCursor): no C14 model, implementation compared with the specification (concatenation computed by the harness) only",
@@ -415,6 +450,7 @@ def main(argv):
     prop_viol = []       # (sortkey, key, case, impl, model, spec, j)
     multi_viol = []      # M lines that violate: (parsed case, case, impl, model, spec)
     solo_bad = set()     # case kinds with a violation in a single-cursor case
+    plain_bad = set()    # ... in a single-cursor case that looks at every point (no observation protocol)
     corr = []            # model != impl although impl == spec, or model != spec
     bolt_bad = []
     paged_bad = []
@@ -440,6 +476,16 @@ def main(argv):
             mo, _, sp = modl.partition(" | ")
             impl_t, mo_t, sp_t = impl.split(), mo.split(), sp.split()
             pc = None
+            proto = protocol_of(case) if case[0] in "CQI" else []
+            sp_full = sp_t
+            if proto:
+                per_kind["protocol"] = per_kind.get("protocol", 0) + 1
+                if len(proto) != len(sp_t):
+                    spec_bad.append((case, "protocol of %d points" % len(proto), sp))
+                mo_t = project(mo_t, proto, impl_t) if mo != "-" else mo_t
+                sp_t = project(sp_t, proto, impl_t)
+                sp = " ".join(sp_t)
+                mo = " ".join(mo_t) if mo != "-" else mo
             if sp == "~":
                 # paged scanner cursor with Seek operations: the transcription of the code is the only reference
                 per_kind["paged-seek"] = per_kind.get("paged-seek", 0) + 1
@@ -453,12 +499,18 @@ def main(argv):
             if impl_t != sp_t or (mo_t != sp_t and mo != "-") or n_cases % oracle_every == 0:
                 pc = parse_case(case)
                 per_kind[pc["kind"]] = per_kind.get(pc["kind"], 0)
-                if oracle(pc) != sp_t:
-                    spec_bad.append((case, " ".join(oracle(pc)), sp))
+                if oracle(pc) != sp_full:
+                    spec_bad.append((case, " ".join(oracle(pc)), " ".join(sp_full)))
             if impl_t != sp_t and pc.get("head") == "M":
                 multi_viol.append((pc, case, impl, mo, sp))      # classified after the single-cursor cases are known
             elif impl_t != sp_t:
                 key, j = classify(pc, impl_t, sp_t)
+                if proto and pc["kind"] not in plain_bad and not key.endswith("panic"):
+                    # right whenever the caller looks at every point (the plain cases of this kind, earlier in the run), wrong under
+                    # this protocol: what the cursor shows depends on which of IsValid / Current were called before
+                    key = "C14:%s-protocol" % pc["kind"]
+                elif not proto:
+                    plain_bad.add(pc["kind"])
                 solo_bad.add(pc["kind"])
                 prop_viol.append(((pc["size"], len(pc["ops"]), j, len(case)), key, case, impl, mo, sp, j))
             elif mo_t != sp_t and mo != "-":
@@ -545,6 +597,13 @@ def main(argv):
                 pc["kind"], "forward" if pc["fw"] else "reverse", dec(pc["inputs"]),
                 " ".join(pc["ops"]) or "(none)", j, impl.split()[j] if j < len(impl.split()) else "?",
                 sp.split()[j] if j < len(sp.split()) else "?"))
+        proto = protocol_of(case) if case[0] in "CQI" else []
+        if proto:
+            what += ("; THE CALLER'S PROTOCOL: after the constructor %s, then %s (the same operations with a look at every point show %s); "
+                     "trace %s, demanded %s" % (
+                         PROTO_WORDS.get(proto[0], proto[0]),
+                         ", ".join("%s -> %s" % (o, PROTO_WORDS.get(m, m)) for o, m in zip(pc["ops"], proto[1:])) or "nothing",
+                         " ".join(oracle(pc)), impl, sp))
         c.violation(key, what, dict(case=case, impl=impl, model=mo, spec=sp, legacy_model=legacy,
                                     classes={k: v for k, v in seen.items()}))
     if prop_viol:
@@ -577,7 +636,13 @@ def main(argv):
                      "27 (64) row triples x every merge order; every ordered pair of the 30 cursor families over the same / different buckets with Next and Seek programs; "
                      "AllOf/AnyOf iterators over seeded random role assignments x all value lists of length <= 3; B: seeded random First/Last/Next/Prev/Seek "
                      "sequences on real bbolt buckets (all 32 subsets, one multi-page bucket, read-only and writable transactions). "
-                     "Observed after the constructor and after every op: IsValid / Current. Non-trivial: the specification trace contains at least one valid "
+                     "CURSOR PROTOCOL (case lines with ' @ modes'): every seekable kind / hand-out site, the hand-outs for missing things and the emptyCursors over "
+                     "8 (32) subsets x every op sequence of length 1-2 over {Next, Seek t} (3 (5) targets) x every observation protocol with one of {not looked at, "
+                     "IsValid then Current, Current then IsValid, Current only, IsValid only} at each point (Next or Seek as the first call on a fresh cursor, "
+                     "operations without a look in between, Current without / before IsValid), Next-walks with the first k points untouched for all kinds incl. "
+                     "filtered / union / tree and the AllOf/AnyOf iterators, idxkey, three protocols for every unpaged scanner-cursor program of length 1-2; reference = "
+                     "the trace of the same case projected on the points looked at. "
+                     "Otherwise observed after the constructor and after every op: IsValid / Current. Non-trivial: the specification trace contains at least one valid "
                      "position (B: at least one key returned); distinct by case text.")
     c.cov["samples"] = samples[:4]
     c.cov["exhaustive"] = True
